@@ -188,6 +188,8 @@ pub fn op_strategy() -> BoxedStrategy<Op> {
         1 => Just(Op::DirtyUntracked),
         1 => Just(Op::IgnoredOnly),
         1 => Just(Op::Clean),
+        1 => Just(Op::TouchUnchanged),
+        1 => Just(Op::EmptyDir),
     ]
     .boxed()
 }
